@@ -246,6 +246,13 @@ impl Prop for C07 {
                 let got = match get_guarded(&sim, *e) {
                     Ok(v) => v,
                     Err(p) => {
+                        let mut c2 = ctx.clone();
+                        if let Some((tail, detail)) = crate::props::c06::localise(&mut c2, &model.env, *e) {
+                            return Err(Failure::new(
+                                format!("sim/eval/{}", tail),
+                                format!("{}\nhistory: {}\nsystem: {}", detail, hist.join(" ; "), show_system(ctx, sys)),
+                            ));
+                        }
                         return Err(Failure::new(
                             format!("sim/get/{}", p.class()),
                             format!("get({}) panicked: {}\nhistory: {}\n{}", refeval::show(ctx, *e), p.msg, hist.join(" ; "), show_system(ctx, sys)),
